@@ -6,8 +6,9 @@ open-for-write / write / flush / close / os.mkdir / os.replace / os.rename / os.
 log (paths relative to the scratch root), cross-checked against the audit events so that a write path the
 wrappers do not see is a harness error and not a silent gap.
 
-crash_states(pre, log, extra_tears) yields (label, tree) for every prefix of the log; when the last operation of
-the prefix is a write, once for each tear position of that write.
+crash_points(log) lists (prefix length, tear) for every prefix of the log; when the last operation of the prefix is
+a write, once for each tear position of that write.  apply_log(pre, prefix, tear, lose_buffers) builds the crash
+state; with lose_buffers the unflushed data of every file that is still open is lost as well.
 
 Crash model: the process is killed; the file system keeps the effects of the completed operations in program
 order plus possibly a prefix of the data of the write in flight.  (Python buffers writes: what reaches the disk
@@ -24,19 +25,28 @@ DIR = None
 
 
 class _WFile:
+    """file wrapper: events carry the id of the open call, so that a file that is renamed while it is still open
+    (and still holds unflushed data) can be followed"""
+    _next = [0]
+
     def __init__(self, log, rel, f):
         self._log, self._rel, self._f = log, rel, f
+        _WFile._next[0] += 1
+        self.fid = _WFile._next[0]
+        self._closed = False
 
     def write(self, b):
-        self._log.append(("write", self._rel, bytes(b)))
+        self._log.append(("write", self._rel, bytes(b), self.fid))
         return self._f.write(b)
 
     def flush(self):
-        self._log.append(("flush", self._rel))
+        self._log.append(("flush", self._rel, self.fid))
         return self._f.flush()
 
     def close(self):
-        self._log.append(("close", self._rel))
+        if not self._closed:
+            self._closed = True
+            self._log.append(("close", self._rel, self.fid))
         return self._f.close()
 
     def __enter__(self):
@@ -63,8 +73,9 @@ def record(ctx, tree, op, now):
         f = ropen(path, mode, *a, **k)
         r = rel(path) if isinstance(path, (str, bytes, os.PathLike)) else None
         if r is not None and any(c in mode for c in "wax+"):
-            log.append(("open", r, mode))
-            return _WFile(log, r, f)
+            w = _WFile(log, r, f)
+            log.append(("open", r, mode, w.fid))
+            return w
         return f
 
     def lmkdir(p, *a, **k):
@@ -117,9 +128,14 @@ def record(ctx, tree, op, now):
     return res, log, final
 
 
-def apply_log(tree, prefix, tear):
-    """pure: the tree after the operations in prefix; tear = number of bytes of the LAST write that made it"""
+def apply_log(tree, prefix, tear, lose_buffers=False):
+    """pure: the tree after the operations in prefix; tear = number of bytes of the LAST write that made it.
+    lose_buffers: the kill also loses what the process had written but not yet flushed / closed: every file that is
+    still open at the crash point is cut back to the length it had at its last flush (Python buffers writes; the data
+    of an unflushed file is in user space and dies with the process - even if the file was renamed meanwhile)."""
     t = dict(tree)
+    cur = {}       # open id -> current path of that file
+    flushed = {}   # open id -> length known to be on disk
     for i, o in enumerate(prefix):
         k = o[0]
         if k == "mkdir":
@@ -129,18 +145,42 @@ def apply_log(tree, prefix, tear):
                 t[o[1]] = b""
             else:
                 t.setdefault(o[1], b"")
+            if len(o) > 3:
+                cur[o[3]] = o[1]
+                flushed[o[3]] = len(t[o[1]])
         elif k == "write":
             data = o[2]
             if i == len(prefix) - 1 and tear is not None:
                 data = data[:tear]
-            t[o[1]] = t.get(o[1], b"") + data
+            p = cur.get(o[3], o[1]) if len(o) > 3 else o[1]
+            t[p] = t.get(p, b"") + data
+        elif k == "flush":
+            if len(o) > 2 and o[2] in cur:
+                flushed[o[2]] = len(t.get(cur[o[2]], b""))
+        elif k == "close":
+            if len(o) > 2:
+                cur.pop(o[2], None)
+                flushed.pop(o[2], None)
         elif k == "replace":
             for p in list(t):
                 if p == o[1] or p.startswith(o[1] + "/"):
                     t[o[2] + p[len(o[1]):]] = t.pop(p)
+            for fid, p in list(cur.items()):
+                if p == o[1]:
+                    cur[fid] = o[2]
         elif k == "remove":
             t.pop(o[1], None)
+    if lose_buffers:
+        for fid, p in cur.items():
+            if p in t and t[p] is not DIR:
+                t[p] = t[p][:flushed.get(fid, 0)]
     return t
+
+
+def has_open_files(prefix):
+    opened = {o[3] for o in prefix if o[0] == "open" and len(o) > 3}
+    closed = {o[2] for o in prefix if o[0] == "close" and len(o) > 2}
+    return bool(opened - closed)
 
 
 def crash_points(log, dense_for=None):
